@@ -3,6 +3,8 @@ DESIGN.md section 4, C08; readings in section 5.6."""
 
 from __future__ import annotations
 
+import itertools
+
 from mc import domains as D
 from mc.rec import Rec
 from ref import tlv as R
@@ -150,6 +152,8 @@ def shards(tier):
             if t != CONCRETE[cls][0]:
                 items.append({"kind": "matrix", "cls": cls, "t": t, "tier": tier})
     items.append({"kind": "corpus", "tier": tier})
+    for t in R.DEFINED_TYPES:
+        items.append({"kind": "tlvhist", "t": t, "depth": 3 if tier == "quick" else 4})
     return items
 
 
@@ -467,9 +471,79 @@ def check_refuse(rec: Rec, ctor: str, n: int, fill: int, nontrivial=True):
 
 
 # =================================================================================== shards
+# -- generic TLV histories: the type of a CfdpTlv is assignable (documented setter); observers may fill caches ----------
+TLVHIST_VALUES = [b"", b"\x07", bytes(range(1, 18))]
+
+
+def tlvhist_events():
+    return ["pack", "packet_len", "value", "repr"] + [f"type={t}" for t in R.DEFINED_TYPES]
+
+
+def check_tlv_history(rec: Rec, t0: int, v: bytes, start: str, seq):
+    """every observation of a CfdpTlv after any sequence of type assignments and reads equals the reference TLV of
+    the type assigned last (read-then-set-then-read finds stale caches); start: constructed | decoded"""
+    L = lib()
+    case = {"kind": "tlvhist", "t": t0, "v": hx(v), "start": start, "seq": list(seq)}
+    rec.case(True, ops=len(seq) + 3)
+    try:
+        obj = L.CfdpTlv(L.TlvType(t0), v) if start == "constructed" else L.CfdpTlv.unpack(R.tlv(t0, v))
+    except Exception:
+        return  # judged by check_generic_tlv
+    cur = t0
+    last = "start"
+
+    def observe(what):
+        ref = R.tlv(cur, v)
+        try:
+            got = {"pack": lambda: bytes(obj.pack()), "packet_len": lambda: int(obj.packet_len), "value": lambda: bytes(obj.value),
+                   "type": lambda: int(obj.tlv_type), "repr": lambda: (repr(obj), str(obj)) and None}[what]()
+        except Exception as e:
+            rec.violation(f"C08.history/CfdpTlv.{what}/exception/after-{last}", case, _exc(e), None)
+            return False
+        exp = {"pack": ref, "packet_len": len(ref), "value": v, "type": cur, "repr": None}[what]
+        if got != exp:
+            rec.violation(f"C08.history/CfdpTlv.{what}/out-of-step/after-{last}", case, got, exp,
+                          repro=f"t = CfdpTlv(TlvType({t0}), bytes.fromhex('{v.hex()}')); events {list(seq)}  # see checks/c08.py check_tlv_history")
+            return False
+        return True
+
+    for ev in seq:
+        if ev.startswith("type="):
+            cur = int(ev[5:])
+            try:
+                obj.tlv_type = L.TlvType(cur)
+            except Exception as e:
+                rec.violation("C08.history/CfdpTlv.tlv_type=/exception", case, _exc(e), "accepted: a defined type")
+                return
+            last = "type-assignment"
+        elif not observe(ev):
+            return
+    for what in ("type", "value", "packet_len", "pack", "pack"):
+        if not observe(what):
+            return
+    rec.outcome(f"tlvhist/{start}/ok")
+
+
+def run_tlvhist(rec: Rec, item):
+    evs = tlvhist_events()
+    n = 0
+    for start in ("constructed", "decoded"):
+        for v in TLVHIST_VALUES:
+            for d in range(1, item["depth"] + 1):
+                for seq in itertools.product(evs, repeat=d):
+                    if not any(e.startswith("type=") for e in seq):
+                        continue  # without an assignment the history is check_generic_tlv's case
+                    check_tlv_history(rec, item["t"], v, start, seq)
+                    n += 1
+    rec.count("tlv_type_setter_histories", n)
+
+
 def run_shard(item):
     rec = Rec(PROPERTY, item)
     kind = item["kind"]
+    if kind == "tlvhist":
+        run_tlvhist(rec, item)
+        return rec.result()
     if kind == "tlv":
         n = 0
         for v in generic_values(item["lo"], item["hi"], item["shaped"]):
@@ -596,6 +670,8 @@ def replay(case):
         check_undefined(rec, case["cls"], case["t"], bt(case["v"]))
     elif k == "refuse":
         check_refuse(rec, case["ctor"], case["n"], case["fill"])
+    elif k == "tlvhist":
+        check_tlv_history(rec, case["t"], bt(case["v"]), case["start"], case["seq"])
     else:
         raise ValueError("unknown case kind %r" % (k,))
     return rec.result()
